@@ -5,7 +5,7 @@ import vlib
 from vlib import to_tangelo_gate, dump_tangelo_gate, dump_model_gate, ang_float, rand_ang, gspec
 
 CLAIM = {
- "text": "Proof (Lean 4): writers and readers of the IonQ JSON and ProjectQ command formats are modelled on abstract syntax with the name dictionaries regenerated from /repo; proved: read(write g) = g (CNOT = CX as the code's own == has it; the variational flag is not expressible) for EVERY gate the format can express - any targets, control lists and parameters; the ProjectQ dictionary is invertible on the names the reader accepts (kernel decision on the regenerated table); gates outside the dictionary are refused by the writer; WHOLE CIRCUITS: for every circuit of expressible gates that satisfies the metadata invariant of C11 (every reachable circuit does), the written register ('qubits' / the Allocate lines) and the reader's reconstruction (Circuit(n_qubits) + gates / add_gate one by one) are modelled and proved to give back a circuit of the SAME WIDTH - idle qubits included - with the same gates (theorems ionq_circuit_roundtrip, projectq_circuit_roundtrip). Tie to the code: every record / command line the real writers emit is compared with the model's, the written register size and the re-imported width with the model's whole-circuit functions, the re-imported circuit is compared with the original (gates, qubits, parameters - exact float equality -, width), gates a format cannot express must raise; repr/eval of gates and the cirq operator conversion are checked by round trip on the real code (no model: eval and cirq are the implementation).",
+ "text": "Proof (Lean 4): writers and readers of the IonQ JSON and ProjectQ command formats are modelled on abstract syntax with the name dictionaries regenerated from /repo; proved: read(write g) = g (CNOT = CX as the code's own == has it; the variational flag is not expressible) for EVERY gate the format can express - any targets, control lists and parameters; the ProjectQ dictionary is invertible on the names the reader accepts (kernel decision on the regenerated table); gates outside the dictionary are refused by the writer; WHOLE CIRCUITS: for every circuit of expressible gates that satisfies the metadata invariant of C11 (every reachable circuit does), the written register ('qubits' / the Allocate lines) and the reader's reconstruction (Circuit(n_qubits) + gates / add_gate one by one) are modelled and proved to give back a circuit of the SAME WIDTH - idle qubits included - with the same gates (theorems ionq_circuit_roundtrip, projectq_circuit_roundtrip). Tie to the code: circuits are exported as built, or after trim_qubits() of a circuit built with a declared register size, a copy, or a repetition (no stale register information may survive an operation between construction and export); every record / command line the real writers emit is compared with the model's, the written register size and the re-imported width with the model's whole-circuit functions, the re-imported circuit is compared with the original (gates, qubits, parameters - exact float equality -, width), gates a format cannot express must raise; repr/eval of gates and the cirq operator conversion are checked by round trip on the real code (no model: eval and cirq are the implementation).",
  "note": "Trusted: Lean kernel + standard axioms, table extractor, Python float printing/parsing (float(str(x)) == x), the regular expressions of the ProjectQ reader (validated only by the correspondence), json module. OpenQASM / qiskit / braket writers are not installed: outside the quantifier here. Known finding: the ProjectQ reader drops Measure instructions.",
  "technique": "Lean 4 round-trip theorems over abstract syntax with regenerated dictionaries + record-level correspondence and real round trips"}
 
@@ -58,10 +58,33 @@ def build(gs, floats, fixed):
     return Circuit(out, n_qubits=fixed)
 
 
-def ionq_case(ctx, gs, floats, fixed):
-    from tangelo.linq import translate_circuit
+def prepared(gs, floats, fixed, pre):
+    """the circuit to export and its description for the model.  pre = "trim": a circuit built with a declared register
+    size and then trimmed (the width changes after construction) / "copy" / "twice" (c * 2): operations between construction
+    and export must not leave stale register information behind"""
     c = build(gs, floats, fixed)
-    case = {"fmt": "ionq", "gates": gs, "floats": {str(k): v for k, v in floats.items()}, "n": fixed}
+    if pre == "trim" and gs:
+        c.trim_qubits()
+        used = sorted({q for g in gs for q in g["t"] + (g["c"] or [])})
+        rank = {q: i for i, q in enumerate(used)}
+        gs = [{**g, "t": [rank[q] for q in g["t"]], "c": None if g["c"] is None else [rank[q] for q in g["c"]]} for g in gs]
+        fixed = None
+    elif pre == "copy":
+        c = c.copy()
+    elif pre == "twice":
+        c = c * 2
+        n0 = len(gs)
+        gs = gs + [dict(g) for g in gs]
+        floats = {**floats, **{k + n0: v for k, v in floats.items()}}
+    return c, gs, floats, fixed
+
+
+def ionq_case(ctx, gs, floats, fixed, pre="none"):
+    from tangelo.linq import translate_circuit
+    case0 = {"gates": gs, "n": fixed, "pre": pre}
+    c, gs, floats, fixed = prepared(gs, floats, fixed, pre)
+    ctx.count("pre:" + pre)
+    case = {"fmt": "ionq", "gates": gs, "floats": {str(k): v for k, v in floats.items()}, "n": fixed, "built_as": case0}
     orig = [dump_tangelo_gate(g) for g in c]
     try:
         d = translate_circuit(c, "ionq")
@@ -127,10 +150,12 @@ def pq_tokenise(text):
     return lines
 
 
-def pq_case(ctx, gs, floats, fixed):
+def pq_case(ctx, gs, floats, fixed, pre="none"):
     from tangelo.linq import translate_circuit
-    c = build(gs, floats, fixed)
-    case = {"fmt": "projectq", "gates": gs, "floats": {str(k): v for k, v in floats.items()}, "n": fixed}
+    case0 = {"gates": gs, "n": fixed, "pre": pre}
+    c, gs, floats, fixed = prepared(gs, floats, fixed, pre)
+    ctx.count("pre:" + pre)
+    case = {"fmt": "projectq", "gates": gs, "floats": {str(k): v for k, v in floats.items()}, "n": fixed, "built_as": case0}
     orig = [dump_tangelo_gate(g) for g in c]
     try:
         text = translate_circuit(c, "projectq")
@@ -243,17 +268,20 @@ def operator_case(ctx, rng):
     return True
 
 
+PRES = ["none", "none", "none", "trim", "trim", "copy", "twice"]
+
+
 def run(ctx):
     rng = ctx.rng
     for i in range(ctx.n(150, 4000)):
         names = IONQ_SET if rng.random() < 0.85 else IONQ_SET + ["CH", "CSWAP", "MEASURE"]
         gs, fl, fixed = rand_circuit(rng, names, 3)
-        if not ionq_case(ctx, gs, fl, fixed) and len(ctx.violations) + len(ctx.mismatches) >= 3:
+        if not ionq_case(ctx, gs, fl, fixed, rng.choice(PRES)) and len(ctx.violations) + len(ctx.mismatches) >= 3:
             return
     for i in range(ctx.n(150, 4000)):
         names = PQ_SET if rng.random() < 0.85 else PQ_SET + ["CZ", "SWAP", "MEASURE", "CRZ"]
         gs, fl, fixed = rand_circuit(rng, names, 1 if rng.random() < 0.9 else 2)
-        if not pq_case(ctx, gs, fl, fixed) and len(ctx.violations) + len(ctx.mismatches) >= 3:
+        if not pq_case(ctx, gs, fl, fixed, rng.choice(PRES)) and len(ctx.violations) + len(ctx.mismatches) >= 3:
             return
     for i in range(ctx.n(300, 5000)):
         if not repr_case(ctx, rng):
@@ -267,7 +295,10 @@ def replay(ctx, obj):
     case = obj.get("case") or (obj.get("first_mismatch") or {}).get("case")
     if case and "fmt" in case:
         fl = {int(k): v for k, v in case["floats"].items()}
-        (ionq_case if case["fmt"] == "ionq" else pq_case)(ctx, case["gates"], fl, case["n"])
+        b = case.get("built_as") or {"gates": case["gates"], "n": case["n"], "pre": "none"}
+        if b["pre"] == "twice":
+            fl = {k: v for k, v in fl.items() if k < len(b["gates"])}
+        (ionq_case if case["fmt"] == "ionq" else pq_case)(ctx, b["gates"], fl, b["n"], b["pre"])
 
 
 def search(ctx, broken):
